@@ -79,7 +79,10 @@ def resolve(text, state):
         if name in state["interned"]:
             return (state["name"], name)
         if name in state["refers"]:
-            return (state["refers"][name], name)
+            home = state["refers"][name]
+            if isinstance(home, (tuple, list)):  # referred under another name (refer ... :rename): denotes the Var's own name
+                return (home[0], home[1])
+            return (home, name)
         if name in state["core"]:
             return ("basilisp.core", name)
         return (state["name"], name)
